@@ -137,6 +137,7 @@ func (e *Eng) evalCallInner(st *State, call *ast.CallExpr) []*Val {
 				for i, a := range args {
 					env[fmt.Sprintf("arg%d", i)] = a
 				}
+				env["nargs"] = scalar(fmt.Sprint(len(args)), "Int", nil)
 				for _, c := range cls {
 					if c.Kind == "requires" {
 						g := e.evalSpec(st, c.Expr, env, e.oldEnv)
@@ -265,6 +266,7 @@ func (e *Eng) evalCallInner(st *State, call *ast.CallExpr) []*Val {
 		for i, a := range args {
 			env[fmt.Sprintf("arg%d", i)] = a
 		}
+		env["nargs"] = scalar(fmt.Sprint(len(args)), "Int", nil)
 		if recv != nil {
 			env["recv"] = recv
 		}
